@@ -17,12 +17,12 @@ pub type T2 = Bvf<u8, 3>;
 pub type T3 = Bvf<u16, 1>;
 pub type T4 = Bvf<u16, 3>;
 pub type T5 = Bvf<u32, 1>;
-pub type T6 = Bvf<u32, 2>;
+pub type T6 = Bvf<u32, 3>;
 pub type T7 = Bvf<u64, 1>;
 pub type T8 = Bvf<u64, 2>;
 pub type T9 = Bvf<u64, 3>;
 pub type T10 = Bvf<u128, 1>;
-pub type T11 = Bvf<u128, 2>;
+pub type T11 = Bvf<u128, 3>;
 pub type T12 = Bvf<usize, 1>;
 pub type T13 = Bvf<usize, 2>;
 pub type T14 = Bvd;
@@ -35,12 +35,12 @@ pub const TYPE_NAMES: [&str; NTYPES] = [
     "Bvf<u16,1>",
     "Bvf<u16,3>",
     "Bvf<u32,1>",
-    "Bvf<u32,2>",
+    "Bvf<u32,3>",
     "Bvf<u64,1>",
     "Bvf<u64,2>",
     "Bvf<u64,3>",
     "Bvf<u128,1>",
-    "Bvf<u128,2>",
+    "Bvf<u128,3>",
     "Bvf<usize,1>",
     "Bvf<usize,2>",
     "Bvd",
@@ -57,12 +57,12 @@ pub const TYPE_FIXED_CAP: [Option<usize>; NTYPES] = [
     Some(16),
     Some(48),
     Some(32),
-    Some(64),
+    Some(96),
     Some(64),
     Some(128),
     Some(192),
     Some(128),
-    Some(256),
+    Some(384),
     Some(64),
     Some(128),
     None,
@@ -542,12 +542,12 @@ impl_subject_fixed!(2, T2, u8, 3);
 impl_subject_fixed!(3, T3, u16, 1);
 impl_subject_fixed!(4, T4, u16, 3);
 impl_subject_fixed!(5, T5, u32, 1);
-impl_subject_fixed!(6, T6, u32, 2);
+impl_subject_fixed!(6, T6, u32, 3);
 impl_subject_fixed!(7, T7, u64, 1);
 impl_subject_fixed!(8, T8, u64, 2);
 impl_subject_fixed!(9, T9, u64, 3);
 impl_subject_fixed!(10, T10, u128, 1);
-impl_subject_fixed!(11, T11, u128, 2);
+impl_subject_fixed!(11, T11, u128, 3);
 impl_subject_fixed!(12, T12, usize, 1);
 impl_subject_fixed!(13, T13, usize, 2);
 
